@@ -51,6 +51,7 @@ ASSUMPTIONS = [
     "transpile() raising, or output that does not compile, is outside this property (counted as skips)",
 ]
 MIN_COUNTERS = {
+    "dict_code_cases": {"quick": 4000, "thorough": 20000},
     # unchanged tree: quick ~230 k returned / ~228 k walked / ~460 k audit events; thorough ~3.7 M / 3.7 M / 7.4 M
     "transpile_returned": {"quick": 40000, "thorough": 600000},
     "walked": {"quick": 40000, "thorough": 600000},
@@ -84,6 +85,10 @@ def units(tier, seed):
     # attribute dot, call/assignment punctuation, non-ASCII and NFKC-foldable letters
     for pos in P.C18_NAME_POSITIONS:
         u.append({"kind": "positions", "positions": [pos], "wrapper": "top", "maxlen": 3, "ext": True})
+    # dictionary codes inside string literals: decompressed *words* are program-chosen text too
+    u.append({"kind": "dict", "part": "single"})
+    for first in range(16):
+        u.append({"kind": "dict", "part": "pairs", "slice": first, "of": 16, "stride": 1 if thorough else 4})
     # raw strings over the alphabet
     u.append({"kind": "raw", "lens": [0, 1, 2, 3]})
     for first in range(16):
@@ -514,6 +519,8 @@ def run_unit(unit):
         _run_positions(unit, m, res)
     elif k == "raw":
         _run_raw(unit, m, res)
+    elif k == "dict":
+        _run_dict(unit, m, res)
     elif k == "random":
         _run_random(unit, m, res)
     elif k == "single":
@@ -631,6 +638,35 @@ def _run_positions(unit, m, res):
     res["counters"]["position_cases"] = res["counters"].get("transpile_calls", 0)
     res["samples"].append({"position": unit["positions"][0], "wrapper": unit["wrapper"], "ext_alphabet": bool(unit.get("ext")),
                            "program": P.c18_program(unit["positions"][0], unit["wrapper"], alphabet[0] + alphabet[13] + alphabet[5])})
+
+
+def _run_dict(unit, m, res):
+    """String literals made of dictionary-compression codes (one code in short-dictionary position, or a
+    two-character code) followed by a hostile tail built from the marker letters: whatever the dictionary
+    expands to (some entries contain quotes) must still end up inside one string constant."""
+    from vyxal import encoding
+
+    rep = _single(unit)
+    codes = list(encoding.compression)
+    mk = sorted(m.markers)
+    q = mk[0] if mk else "Q"
+    tails = [");" + q + "(#", "+" + q + ")#", " " + q]
+    c = res["counters"]
+    if unit["part"] == "single":
+        for ch in codes:
+            for tail in tails:
+                for prog in ("`" + ch + tail + "`", "`" + ch + " " + tail + "`", "`a" + ch + tail + "`", "‛" + ch + tail[0]):
+                    run_program(prog, m, res, rep, "dict-code")
+                    c["dict_code_cases"] = c.get("dict_code_cases", 0) + 1
+        res["distinct"] += len(codes)
+    else:
+        pairs = [(a, b) for a in codes for b in codes]
+        pairs = pairs[unit["slice"]::unit["of"]][::unit.get("stride", 1)]
+        for a, b in pairs:
+            run_program("`" + a + b + tails[0] + "`", m, res, rep, "dict-code")
+            c["dict_code_cases"] = c.get("dict_code_cases", 0) + 1
+        res["distinct"] += len(pairs)
+    res["samples"].append({"dict_program": "`" + codes[5] + tails[0] + "`"})
 
 
 def _run_raw(unit, m, res):
